@@ -22,7 +22,9 @@ def run(tier):
     q = c.quick()
     u = tm.unit_ms(c)
 
-    # ---- pass A: model checking (nothing timed runs meanwhile)
+    runs = tm.Runs(c)
+    runs.long_delays_start("long")      # 10-12 s delays waited out, alongside everything below
+    # ---- pass A: model checking (nothing timed runs meanwhile - except the long delays, which assert no lateness)
     heap_cf = (4, [0, 1, 2]) if q else (5, [0, 1, 2])
     impl_cf = tm.impl_consts(3, "D_n013", 2, 2) if q else tm.impl_consts(4, "D_n013", 2, 2)
     jobs = [lambda: tm.heap_check(c, "TimerHeap-emit", heap_cf[0], heap_cf[1], emit=True, workers=6, timeout=1500),
@@ -40,7 +42,6 @@ def run(tier):
     c.extra["distinct_heap_scripts"] = len(heap_scripts)
 
     # ---- pass B: timed executions on the real package
-    runs = tm.Runs(c)
     base = {"unit_ms": u, "maxw": 2, "idle_ms": 2 * u, "late": 0}
     n1, n8 = (4000, 4000) if q else (60000, 40000)
     runs.scripts(tm.sample(c, heap_scripts, n1, 1), "heap1", dict(base, conc=1))
@@ -49,6 +50,7 @@ def run(tier):
     runs.random("rand", 4 if q else 50, dict(base, futures=500, varycfg=1))
     runs.random("randslow", 1 if q else 10, dict(base, futures=200, varycfg=1, slow=1))
     runs.panicking("panic", 8 if q else 40)
+    runs.long_delays_join()
 
     # ---- pass C: TLC judges the traces
     good = runs.validate("C12")
